@@ -13,7 +13,8 @@ TRUSTED = ["C14: Rust u32::from_str (optional '+', ASCII digits, <= 2^32-1), str
            "C14: clap's usize parser for --account-index is exercised black-box (not modelled)"]
 
 B31 = 1 << 31
-VALUES = [0, 1, 9, 10, 44, 60, B31 - 2, B31 - 1, B31, B31 + 1, (1 << 32) - 1, 1 << 32, (1 << 32) + 1, 1 << 64, 1 << 63]
+VALUES = [0, 1, 9, 10, 44, 60, B31 - 2, B31 - 1, B31, B31 + 1, (1 << 32) - 1, 1 << 32, (1 << 32) + 1, 1 << 64, 1 << 63,
+          (1 << 32) + 5, (1 << 32) + B31 - 1, 1 << 33, (1 << 32) * 10, 4294967290, 4294967299, 42949672960, 99999999999, (1 << 64) + 7, (1 << 31) * 3]
 MALFORMED = ["m", "m/", "/0", "M/0", "m//0", "m/0/", "m/-1", "m/1.5", "m/0x10", "m/1''", "m/'", "m/ 1", "m/1 ", " m/1", "m/1\n",
              "m/١", "n/0", "", "0", "m0", "m/0/'", "m/0h", "m/0H", "m/1e3", "m/1_000", "m/++1", "m/+", "m/+'", "m/-0", "m/0'/",
              "m/m/0", "m\\0", "m/0\\1", "m/１", "m/1²", "m/4294967296", "m/4294967296'", "m/2147483648", "m/2147483648'",
